@@ -9,7 +9,7 @@ mod verif_kani {
     use crate::nodes::{BinaryExpression, IfExpression, UnaryExpression};
     use crate::verif_spec::{any_binop, any_unop};
 
-    //@harness props=C02,C12 kind=proof fns=TypeCastExpression::needs_parentheses
+    //@harness props=C02,C12 kind=proof fns=TypeCastExpression::needs_parentheses bound="the 4 expression forms with all operators; operands `nil` (the Verus obligation covers every expression)"
     //@ desc="needs_parentheses(e) is true for every binary (all 16 operators), unary (all 3 operators), if- and type-cast expression e (the four expression forms that are not a Luau simpleexp and would re-associate under `::`)"
     #[kani::proof]
     #[kani::unwind(3)]
